@@ -8,6 +8,7 @@
 //       bfgs <ls> | cg <ls> | lbfgs <ls> <hist> | trn            ls: 0 dlinmin 1 wolfecubic 2 backtracking
 //   init <x0 n>
 //   step
+//   ls <type> <t0> <x n> <d n>             one direct line search from x along d (any direction, also ascent / zero)
 //   save text|bin strict|lenient            write the optimizer, read into a fresh instance, continue with it
 //
 // numbers are IEEE-754 bit patterns "x<16 hex digits>".
@@ -288,6 +289,27 @@ int main(){
 					out << " !oracle increased";
 				if(!sameVec(pt, twin->o().solution().point) || !sameBits(val, twin->o().solution().value))
 					out << " !oracle resume-diverged";
+			}else if(t[0] == "ls"){
+				// direct call of LineSearch::operator() from an arbitrary point along an arbitrary direction
+				std::size_t n = f->n;
+				if(t.size() != 3 + 2*n) throw std::runtime_error("bad-op");
+				double type = bits2d(t.at(1)), t0 = bits2d(t.at(2));
+				RealVector p(n), d(n), g;
+				for(std::size_t k = 0; k != n; ++k){ p(k) = bits2d(t[3+k]); d(k) = bits2d(t[3+n+k]); }
+				double v = f->both(p, &g);
+				double gtd = 0; for(std::size_t k = 0; k != n; ++k) gtd += g(k) * d(k);
+				RealVector p0 = p, g0 = g; double v0 = v;
+				LineSearch<RealVector> ls; ls.lineSearchType() = lsType(type); ls.init(*f);
+				ls(p, v, d, g, t0);
+				out << "ls pt=" << showVec(p) << " val=" << vh::exactDouble(v) << " st=" << n << hexVec(p) << "," << hexd(v) << hexVec(g);
+				bool finite = std::isfinite(v);
+				for(std::size_t k = 0; k != n; ++k) finite = finite && std::isfinite(p(k));
+				if(!finite) out << " !oracle ls-non-finite";
+				RealVector gre; double re = f->both(p, &gre);
+				if(finite && !sameBits(re, v)) out << " !oracle ls-value-not-f-of-point";
+				if(finite && !sameVec(gre, g)) out << " !oracle ls-gradient-not-grad-of-point";
+				if(finite && gtd <= 0 && !(v <= v0)) out << " !oracle ls-increased";
+				if(sameVec(p, p0) && (!sameBits(v, v0) || !sameVec(g, g0))) out << " !oracle ls-unchanged-point-changed-state";
 			}else if(t[0] == "converged"){
 				// numerical convergence oracle (strictly convex quadratics): ||grad f(best)||_inf <= tol * (1 + ||b||_inf)
 				if(!cur) throw std::runtime_error("bad-op");
